@@ -447,12 +447,55 @@ class Facade(types.ModuleType):
         return r
 
 
+def _sym_inv(a):
+    """inverse of a small (<= 4x4) symbolic matrix by the adjugate formula (no pivoting decisions)"""
+    a = asnd(a).astype(float)
+    if a.ndim != 2 or a.shape[0] != a.shape[1]:
+        raise _np.linalg.LinAlgError("Last 2 dimensions of the array must be square")
+    n = a.shape[0]
+    if not arrays.has_sym(raw(a)):
+        return SymNd(_np.linalg.inv(arrays.to_real(a)))
+    if n > 4:
+        raise Unencodable("symbolic matrix inverse beyond 4x4")
+    M = raw(a)
+    memo = {}
+
+    def det(rows, cols):
+        key = (rows, cols)
+        if key in memo:
+            return memo[key]
+        if len(rows) == 0:
+            r = _np.float64(1.0)
+        elif len(rows) == 1:
+            r = M[rows[0], cols[0]]
+        else:
+            r = _np.float64(0.0)
+            i = rows[0]
+            for k, j in enumerate(cols):
+                term = core.s_mul(M[i, j], det(rows[1:], cols[:k] + cols[k + 1:]))
+                r = core.s_add(r, term) if k % 2 == 0 else core.s_sub(r, term)
+        memo[key] = r
+        return r
+    idx = tuple(range(n))
+    d = det(idx, idx)
+    out = _np.empty((n, n), dtype=object)
+    for i in range(n):
+        for j in range(n):
+            cof = det(idx[:j] + idx[j + 1:], idx[:i] + idx[i + 1:])
+            if (i + j) % 2:
+                cof = core.s_neg(cof)
+            out[i, j] = core.s_div(cof, d)
+    return arrays._wrap(out, arrays.FLOAT)
+
+
 class _SubFacade:
     def __init__(self, mod, name):
         self._mod = mod
         self._name = name
 
     def __getattr__(self, name):
+        if self._name == "numpy.linalg" and name == "inv":
+            return _sym_inv
         attr = getattr(self._mod, name)
         if callable(attr) and not isinstance(attr, type):
             def r(*a, **kw):
